@@ -93,6 +93,13 @@ def extra_families():
                                                                       ('set_attr_scalar', 's', 'str'), ('set_attr_scalar', 'i', 7)]})],
                  'root': ('dict', 'str', ('cls', 'K'))},
                 lambda b: [{'k': b.classes['K'](1)}, {'a': b.classes['K'](2), 'b': b.classes['K'](3)}]))
+    # int nodes in the other YAML spellings, put there by a sweeten (JSON has decimal numbers only)
+    fam.append(('sweeten-writes-int-spellings',
+                {'classes': B + [K([('x', 'int')], hooks={'sweeten': [('set_attr_node', 'h', ('s', 'int', '0x1F')), ('set_attr_node', 'o', ('s', 'int', '017')),
+                                                                      ('set_attr_node', 'b', ('s', 'int', '-0b101')), ('set_attr_node', 'u', ('s', 'int', '1_000')),
+                                                                      ('set_attr_node', 'p', ('s', 'int', '+5')), ('set_attr_node', 'd', ('s', 'int', '12'))]})],
+                 'root': ('list', ('cls', 'K'))},
+                lambda b: [[b.classes['K'](1)]]))
     fam.append(('sweeten-writes-floats',
                 {'classes': B + [K([('x', 'int')], hooks={'sweeten': [('set_attr_scalar', 'a', float('inf')), ('set_attr_scalar', 'b', float('-inf')),
                                                                       ('set_attr_scalar', 'c', float('nan')), ('set_attr_scalar', 'd', 1e-6),
